@@ -8,7 +8,7 @@ from .. import gen, impl, oracle, ser, stream
 
 ID = "C03"
 LEVEL = "proof"
-PROPS_MODULE = "SymmModel.Props.C03All2"
+PROPS_MODULE = "SymmModel.Props.C03All3"
 THEOREMS = [
     "SymmModel.C03.isPerm_iff_perm",
     "SymmModel.C03.koszul_eq_invOdd",
@@ -44,10 +44,14 @@ THEOREMS = [
     "SymmModel.C09.einsumF_refines_graded",
     "SymmModel.C09.transposedElem_inBox",
     "SymmModel.C06.tensordotF_modes_agree",
-    "SymmModel.C06.tensordotF_refines_graded_any_mode"
+    "SymmModel.C06.tensordotF_refines_graded_any_mode",
+    "SymmModel.C06.tensordotF_modes_agree_shapes",
+    "SymmModel.C06.tensordotF_refines_graded_any_mode'",
+    "SymmModel.C06.tensordotF_refines_graded_any_mode_weak",
+    "SymmModel.C06.tensordotF_modes_agree_weak"
 ]
-LEAN_FILES = ["SymmModel.Props.C03", "SymmModel.Proofs.Koszul", "SymmModel.Props.C03b", "SymmModel.Props.C03All", "SymmModel.Proofs.Graded", "SymmModel.Props.C09b", "SymmModel.Proofs.LazyMore", "SymmModel.Props.C06c", "SymmModel.Props.C03All2", "SymmModel.Proofs.TdotFused8", "SymmModel.Proofs.TdotFused9"]
-PLANNED = ["fused and auto mode of tensordotF with an empty free group on either side (non-empty groups proved in C06c)"]
+LEAN_FILES = ["SymmModel.Props.C03", "SymmModel.Proofs.Koszul", "SymmModel.Props.C03b", "SymmModel.Props.C03All", "SymmModel.Proofs.Graded", "SymmModel.Props.C09b", "SymmModel.Proofs.LazyMore", "SymmModel.Props.C06c", "SymmModel.Props.C03All2", "SymmModel.Proofs.TdotFused8", "SymmModel.Proofs.TdotFused9", "SymmModel.Props.C06d", "SymmModel.Props.C03All3"]
+PLANNED = []
 RULE = ("random fermionic arrays over all symmetries (static/generic classes), even and odd total charge with "
         "labels, sparse, pending lazy signs; every permutation for transpose; tensordot over random axes in modes "
         "auto/fused/blockwise; trace, matmul, single-array einsum. Compared with the Lean model and an independent "
